@@ -9,6 +9,7 @@
    C13: every sample equals the state after SOME prefix of the primary's entries (entries of a batch counted one by
         one - the weaker reading, see DESIGN.md), the matched prefix never shrinks, reported never decreases and is
         covered by the matched prefix;
+        at convergence the replica has been handed exactly as many entries as the primary logged (none skipped, none twice);
    C14: the trace must end in conv (equal full scans, held for three more samples, before the deadline) with the state
         the history defines;
    C15: every inv is followed by its ret (a hang has no action here), a replica that stopped reading is reported
@@ -31,10 +32,11 @@ VARIABLES l,       \* position in the trace
           lo,      \* number of entries of the last matched prefix
           rep,     \* last reported applied sequence number
           wr,      \* 1 while a primary operation is outstanding
-          stalled  \* number of attached clients that never read
+          stalled, \* number of attached clients that never read
+          once     \* TRUE while every entry can have reached the replica at most once (no restart from sequence 1 so far)
 
 Trace == ndJsonDeserialize("trace.ndjson")
-tvars == <<l, ents, nseq, base, lo, rep, wr, stalled>>
+tvars == <<l, ents, nseq, base, lo, rep, wr, stalled, once>>
 
 None == [k \in TKeys |-> "NONE"]
 Ev(e) == l <= Len(Trace) /\ Trace[l].e = e /\ l' = l + 1
@@ -45,52 +47,55 @@ Overlay(b, n) == [k \in TKeys |->
                     LET is == {i \in 1..n : ents[i].k = k} IN
                     IF is = {} THEN b[k] ELSE Norm(ents[CHOOSE i \in is : \A j \in is : j <= i].v)]
 
-TInit == TLCSet(1, 0) /\ l = 1 /\ ents = <<>> /\ nseq = 1 /\ base = None /\ lo = 0 /\ rep = 0 /\ wr = 0 /\ stalled = 0
+TInit == TLCSet(1, 0) /\ l = 1 /\ ents = <<>> /\ nseq = 1 /\ base = None /\ lo = 0 /\ rep = 0 /\ wr = 0 /\ stalled = 0 /\ once = TRUE
 
-TReset == /\ Ev("reset") /\ ents' = <<>> /\ nseq' = 1 /\ base' = None /\ lo' = 0 /\ rep' = 0 /\ wr' = 0 /\ stalled' = 0
+TReset == /\ Ev("reset") /\ ents' = <<>> /\ nseq' = 1 /\ base' = None /\ lo' = 0 /\ rep' = 0 /\ wr' = 0 /\ stalled' = 0 /\ once' = TRUE
 TW == /\ Ev("w") /\ wr = 0
       /\ ents' = ents \o [i \in 1..Len(Trace[l].op) |-> [k |-> Trace[l].op[i].k, v |-> Trace[l].op[i].v, seq |-> nseq]]
-      /\ nseq' = nseq + 1 /\ wr' = 1 /\ UNCHANGED <<base, lo, rep, stalled>>
-TWRet == Ev("wret") /\ wr = 1 /\ wr' = 0 /\ UNCHANGED <<ents, nseq, base, lo, rep, stalled>>
-TPlain == (Ev("flush") \/ Ev("join")) /\ UNCHANGED <<ents, nseq, base, lo, rep, wr, stalled>>
+      /\ nseq' = nseq + 1 /\ wr' = 1 /\ UNCHANGED <<base, lo, rep, stalled, once>>
+TWRet == Ev("wret") /\ wr = 1 /\ wr' = 0 /\ UNCHANGED <<ents, nseq, base, lo, rep, stalled, once>>
+TPlain == (Ev("flush") \/ Ev("join")) /\ UNCHANGED <<ents, nseq, base, lo, rep, wr, stalled, once>>
 \* intended design: a restarted replica keeps what it applied and its position
-TRestart == Ev("rrestart") /\ UNCHANGED <<ents, nseq, base, lo, rep, wr, stalled>>
+TRestart == Ev("rrestart") /\ UNCHANGED <<ents, nseq, base, lo, rep, wr, stalled, once>>
 \* KNOWN FINDING KF_C13_restart_from_one: Manager.startReplica starts every replica at sequence 0, so after a restart
 \* the primary's log is applied again from its first entry ON TOP of what the replica holds, and the reported
 \* sequence starts again at 0
 TRestartFromOne == /\ KF_RestartFromOne /\ Ev("rrestart")
-                   /\ base' = Overlay(base, lo) /\ lo' = 0 /\ rep' = 0
+                   /\ base' = Overlay(base, lo) /\ lo' = 0 /\ rep' = 0 /\ once' = FALSE
                    /\ UNCHANGED <<ents, nseq, wr, stalled>>
-TCwr == Ev("cwr") /\ Trace[l].refused /\ UNCHANGED <<ents, nseq, base, lo, rep, wr, stalled>>
+TCwr == Ev("cwr") /\ Trace[l].refused /\ UNCHANGED <<ents, nseq, base, lo, rep, wr, stalled, once>>
 TSample == /\ Ev("s") /\ Trace[l].x = 0
            /\ Trace[l].rep >= rep /\ rep' = Trace[l].rep
            /\ \E n \in lo..Len(ents) :
                 /\ \A k \in TKeys : Trace[l].st[k] = Overlay(base, n)[k]
                 /\ SeqAt(n) >= Trace[l].rep
                 /\ lo' = n
-           /\ UNCHANGED <<ents, nseq, base, wr, stalled>>
-TQuiesce == Ev("quiesce") /\ wr = 0 /\ UNCHANGED <<ents, nseq, base, lo, rep, wr, stalled>>
+           /\ UNCHANGED <<ents, nseq, base, wr, stalled, once>>
+TQuiesce == Ev("quiesce") /\ wr = 0 /\ UNCHANGED <<ents, nseq, base, lo, rep, wr, stalled, once>>
+\* rcount is the replica engine's own sequence counter = how many entries it was handed since it was created: exactly once
+\* each (a skipped entry that a later write covers, or an entry applied twice, is invisible in the state but not here)
 TConv == /\ Ev("conv") /\ lo = Len(ents)
+         /\ (once => Trace[l].rcount = Len(ents))
          /\ \A k \in TKeys : Trace[l].pst[k] = Overlay(None, Len(ents))[k]
-         /\ UNCHANGED <<ents, nseq, base, lo, rep, wr, stalled>>
+         /\ UNCHANGED <<ents, nseq, base, lo, rep, wr, stalled, once>>
 
 (* C15 *)
 TFault == /\ Ev("fault") /\ wr = 0 /\ stalled' = stalled + (IF Trace[l].mode = "norecv" THEN 1 ELSE 0)
-          /\ UNCHANGED <<ents, nseq, base, lo, rep, wr>>
-TInv == Ev("inv") /\ wr = 0 /\ wr' = 1 /\ UNCHANGED <<ents, nseq, base, lo, rep, stalled>>
-TRet == Ev("ret") /\ wr = 1 /\ wr' = 0 /\ UNCHANGED <<ents, nseq, base, lo, rep, stalled>>
+          /\ UNCHANGED <<ents, nseq, base, lo, rep, wr, once>>
+TInv == Ev("inv") /\ wr = 0 /\ wr' = 1 /\ UNCHANGED <<ents, nseq, base, lo, rep, stalled, once>>
+TRet == Ev("ret") /\ wr = 1 /\ wr' = 0 /\ UNCHANGED <<ents, nseq, base, lo, rep, stalled, once>>
 \* KNOWN FINDING KF_C15_stalled_reader_blocks_primary: while a client that never reads its stream is attached, a
 \* primary operation does not return (stream.Send inside the log append path, under the storage write lock)
 THangStalled == /\ KF_StallBlocksWrite /\ Ev("hang") /\ wr = 1 /\ stalled > 0
-                /\ UNCHANGED <<ents, nseq, base, lo, rep, wr, stalled>>
-TTopo == Ev("topo") /\ wr = 0 /\ Trace[l].dropped /\ UNCHANGED <<ents, nseq, base, lo, rep, wr, stalled>>
+                /\ UNCHANGED <<ents, nseq, base, lo, rep, wr, stalled, once>>
+TTopo == Ev("topo") /\ wr = 0 /\ Trace[l].dropped /\ UNCHANGED <<ents, nseq, base, lo, rep, wr, stalled, once>>
 \* KNOWN FINDING KF_C15_stalled_reader_not_dropped: the session's activity time-stamp is refreshed by the primary's own
 \* (buffered) sends, so a client that never reads is never timed out
 TTopoStalledStays == /\ KF_StallNotDropped /\ Ev("topo") /\ ~Trace[l].dropped /\ stalled > 0
-                     /\ UNCHANGED <<ents, nseq, base, lo, rep, wr, stalled>>
-THConv == Ev("hconv") /\ wr = 0 /\ Trace[l].ok /\ UNCHANGED <<ents, nseq, base, lo, rep, wr, stalled>>
+                     /\ UNCHANGED <<ents, nseq, base, lo, rep, wr, stalled, once>>
+THConv == Ev("hconv") /\ wr = 0 /\ Trace[l].ok /\ UNCHANGED <<ents, nseq, base, lo, rep, wr, stalled, once>>
 \* normal end of a fault scenario: nothing is outstanding
-TEnd == Ev("end") /\ wr = 0 /\ UNCHANGED <<ents, nseq, base, lo, rep, wr, stalled>>
+TEnd == Ev("end") /\ wr = 0 /\ UNCHANGED <<ents, nseq, base, lo, rep, wr, stalled, once>>
 
 TNext == TReset \/ TW \/ TWRet \/ TPlain \/ TRestart \/ TRestartFromOne \/ TCwr \/ TSample \/ TQuiesce \/ TConv
          \/ TFault \/ TInv \/ TRet \/ THangStalled \/ TTopo \/ TTopoStalledStays \/ THConv \/ TEnd
